@@ -254,6 +254,9 @@ func runC16(c *Ctx) {
 		}
 	}
 
+	c.Rule("C16-D6", "the caller's configuration is not rearranged in place (F52): dial uses ClientConfig.Transports only to read, measure or copy it — connect and the upgrade goroutine re-slice and shift the list they work on", 1)
+	callerTransportsNotMutated(c, "C16-D6")
+
 	c.Rule("C16-D3", "no user callback under a lock: application code (handlers, middlewares, authenticator, adapter callbacks, Engine.IO callbacks) is never invoked while the library holds one of its own mutexes — a handler may call any exported method, several of which take those mutexes", 25)
 	{
 		n := 0
